@@ -17,26 +17,27 @@ fn arg(args: &[String], name: &str) -> Option<String> {
 }
 
 /// (runs, wall-clock budget in seconds) per check and tier. Quick tiers are sized for roughly
-/// 15-30 s on 16 cores (the budget is only a safety net); thorough tiers for about 10 minutes.
+/// 20-40 s on 16 idle cores (the budget is only a safety net); thorough tiers for about 10 minutes.
 fn plan(check: &str, tier: &str) -> (u64, f64) {
     let quick: u64 = match check {
-        "C01" | "C02" | "C05" | "C12" | "C13" | "C19" => 50_000,
-        "C04" => 50_000,
-        "C17" => 40_000,
-        "C14" | "C15" => 25_000,
-        "C08" => 15_000,
-        "C03" => 8_000,
-        "C09" => 5_500,
-        "C18" => 3_500,
-        "C20" => 3_000,
-        "C10" => 2_500,
-        "C11" => 4_000,
-        "C06" => 1_500,
-        "C16" => 1_200,
+        "C01" => 120_000,
+        "C02" | "C04" => 100_000,
+        "C19" => 90_000,
+        "C05" | "C13" | "C17" => 80_000,
+        "C12" | "C14" | "C15" => 60_000,
+        "C08" => 45_000,
+        "C03" => 12_000,
+        "C09" => 8_000,
+        "C11" => 5_000,
+        "C18" => 4_500,
+        "C20" => 4_000,
+        "C10" => 3_500,
+        "C16" => 3_000,
+        "C06" => 2_500,
         _ => 2_000,
     };
     if tier == "thorough" {
-        (quick * 25, 600.0)
+        (quick * 12, 600.0)
     } else {
         (quick, 75.0)
     }
